@@ -3,7 +3,8 @@
 (* diagonal), every pair / single of deflation vectors with entries in {0, 1, -1}   *)
 (* taken from a fixed family, right-hand sides and start vectors unit vectors.      *)
 EXTENDS Deflation, Patterns, TLC
-CONSTANT KStride          \* every KStride-th matrix pattern (1 = all 64 patterns with a full diagonal)
+CONSTANTS KStride,         \* every KStride-th matrix pattern (1 = all 64 patterns with a full diagonal)
+          MirrorE          \* FALSE: E as the code builds it; TRUE: upper triangle mirrored (must violate EInv)
 VARIABLES km, zs, aa, zz, ee, ei, pc
 Zfam == << <<1, 1, 1>>, <<1, 0, 0>>, <<0, 1, -1>>, <<1, -1, 0>>, <<0, 0, 1>> >>
 AOf(m) == [i \in 1..3 |-> [j \in 1..3 |-> IF i = j THEN R(3 + (i % 2)) ELSE IF Bit(m, (i - 1) * 3 + j - 1) THEN R(PatVal(i - 1, j - 1, 1)) ELSE RZero]]
@@ -11,7 +12,7 @@ ZOf(s) == [k \in 1..Len(s) |-> RV(Zfam[s[k]])]
 \* the matrix, the vectors, E and its inverse are computed once per configuration
 Init == /\ km \in {k \in Masks(3, 3) : HasDiag(3, k) /\ (k \div 2) % KStride = 0}
         /\ zs \in {<<a>> : a \in 1..5} \cup {<<a, b>> : a \in 1..5, b \in 1..5} \cup {<<1, 2, 3>>, <<2, 3, 5>>}
-        /\ aa = AOf(km) /\ zz = ZOf(zs) /\ ee = ERun(aa, zz)
+        /\ aa = AOf(km) /\ zz = ZOf(zs) /\ ee = (IF MirrorE THEN EMirrored(aa, zz) ELSE ERun(aa, zz))
         /\ ei = IF Regular(ee) /\ Regular(aa) THEN InverseM(ee) ELSE <<>>
         /\ pc = "init"
 Next == pc = "init" /\ pc' = "project" /\ UNCHANGED <<km, zs, aa, zz, ee, ei>>
